@@ -108,6 +108,28 @@ def ensure_logs_cancel(h, ctx, label, tot):
         ensure(h, ctx, label, numr == den)
 
 
+def grad_connected(h, ctx, results):
+    """C16 (connectivity part): every leaf (input, context, trainable parameter) whose symbols occur in a result's value is reachable from
+    that result through differentiable ops -- no detach / .data / no_grad / .item() cut severs all gradient paths"""
+    leaf_of = {}
+    for nm_, t_ in h.inputs.items():
+        if isinstance(t_, Sym) and t_._g and t_._g.get("requires_grad"):
+            for e in P(t_).reshape(-1):
+                leaf_of[e.get_id()] = t_._g.get("leaf", nm_)
+    for r in results:
+        if not isinstance(r, Sym) or not r.dtype.is_floating_point:
+            continue
+        val = set()
+        for e in P(r).reshape(-1):
+            for sid in T.base_symbols(e):
+                if sid in leaf_of: val.add(leaf_of[sid])
+        gs = set((r._g or {}).get("gradset") or ())
+        if (r._g or {}).get("requires_grad"):
+            gs.add(r._g.get("leaf"))
+        missing = sorted(val - gs)
+        ensure(h, ctx, "C16.value-dependencies-are-gradient-connected", z3.BoolVal(not missing), meta={"missing": missing, "valset": sorted(val), "gradset": sorted(map(str, gs))})
+
+
 def zabs(t):
     return z3.If(t >= 0, t, -t)
 
@@ -191,6 +213,13 @@ def transform_harness(spec, mode, props, dtype=None):
     def mk_inputs(h, ctx):
         x = h.inp("x", spec.shape, xdtype)
         c = h.inp("context", spec.ctx_shape, xdtype) if spec.ctx_shape else None
+        if "C16" in props:
+            for nm_, t_ in (("x", x), ("context", c)):
+                if t_ is not None:
+                    t_._g = {"requires_grad": True, "leaf": nm_}
+            for nm_, t_ in h.inputs.items():
+                if nm_.startswith("p:") and getattr(t_, "_is_param", False):
+                    t_._g = {"requires_grad": True, "leaf": nm_}
         return x, c
 
     def assume_domain(ctx, x, dom):
@@ -247,6 +276,8 @@ def transform_harness(spec, mode, props, dtype=None):
                                 if sid in row_of and row_of[sid][1][0] != b:
                                     bad.append((b, row_of[sid]))
                 ensure(h, ctx, "C12.row-independent", z3.BoolVal(ok and not bad), meta={"bad": str(bad[:3])})
+            if "C16" in props:
+                grad_connected(h, ctx, [out, ld])
             if "C13" in props:
                 bad = [w for w in ctx.writes if w[0] != "fresh"]
                 ensure(h, ctx, "C13.no-write", z3.BoolVal(not bad), meta={"writes": [str(w) for w in bad][:3]})
@@ -346,6 +377,24 @@ def transform_harness(spec, mode, props, dtype=None):
             before = [t.clone() for t in a]; sd0 = {k: v.clone() for k, v in m32.state_dict().items()}
             (m32.forward if mode == "forward" else m32.inverse)(*a)
             c["C13.no-write"] = all(torch.equal(p, q) for p, q in zip(before, a)) and all(torch.equal(sd0[k], v) for k, v in m32.state_dict().items())
+        if mode in ("forward", "inverse") and "C16" in props:
+            m = nat_module(inp)
+            f = m.forward if mode == "forward" else m.inverse
+            xg = x.clone().requires_grad_(True)
+            leaves = [("x", xg)] + [(n_, p_) for n_, p_ in m.named_parameters()]
+            for r_i in (0, 1):
+                base = f(xg, *a[1:])[r_i]
+                grads = torch.autograd.grad(base.sum(), [l for _, l in leaves], allow_unused=True, retain_graph=False)
+                ok16 = True
+                for (n_, l), g in zip(leaves, grads):
+                    # does the value depend on the leaf?  (perturbation)  then a gradient must arrive
+                    with torch.no_grad():
+                        old = l.detach().clone(); l.add_(0.123)
+                        moved = not torch.allclose(f(xg, *a[1:])[r_i], base.detach(), atol=1e-9)
+                        l.copy_(old)
+                    if moved and g is None:
+                        ok16 = False
+                c["C16.value-dependencies-are-gradient-connected"] = c.get("C16.value-dependencies-are-gradient-connected", True) and ok16
         if mode == "if":
             y, ldf, x2, ldi = res
             c["C02.roundtrip_if"] = bool(torch.allclose(x2, x, atol=1e-6, rtol=1e-6))
